@@ -88,9 +88,50 @@ func scalingProgram(r *core.Rng) ([]ast.Node, string) {
 		pre = append(pre, g.TopStmt())
 	}
 	magic := ast.IntLit{V: c09Magic}
+	zi := ast.Name{N: "zi"}
+	never := func() ast.Node { return ast.Binary{Op: "<", L: zi, R: ast.IntLit{V: 0}} }
+	always := func() ast.Node { return ast.Binary{Op: ">=", L: zi, R: ast.IntLit{V: 0}} }
+	// guard trees: if / if-else nests whose leaves are never-taken returns (else-less or not), plain values,
+	// assignments and empty loops; every arm is taken or not by construction, none ever returns
+	var guard func(d int) ast.Node
+	guard = func(d int) ast.Node {
+		cond := func() ast.Node {
+			switch r.Intn(3) {
+			case 0:
+				return never()
+			case 1:
+				return always()
+			}
+			return g.Expr(gen.Bool, 1)
+		}
+		k := r.Intn(8)
+		if d <= 0 && k >= 2 && k <= 4 {
+			k = 5 + r.Intn(3)
+		}
+		switch k {
+		case 0:
+			return ast.If{Cond: never(), Then: ast.Return{X: ast.IntLit{V: int64(r.Intn(9))}}}
+		case 1:
+			return ast.If{Cond: always(), Then: g.Expr(gen.Int, 1)}
+		case 2:
+			return ast.If{Cond: cond(), Then: guard(d - 1), Else: guard(d - 1)}
+		case 3:
+			return ast.If{Cond: cond(), Then: guard(d - 1)}
+		case 4:
+			return ast.If{Cond: never(), Then: ast.Return{X: ast.IntLit{V: 1}}, Else: guard(d - 1)}
+		case 5:
+			return ast.Assign{Name: "zq", Value: g.Expr(gen.Int, 1)}
+		case 6:
+			return ast.While{Cond: ast.BoolLit{V: false}, Body: ast.IntLit{V: 1}}
+		default:
+			return g.Expr(gen.Int, 1)
+		}
+	}
 	bodyStmt := func() ast.Node {
 		// every statement form as the last statement of the loop body
-		switch r.Intn(13) {
+		switch r.Intn(17) {
+		case 13, 14, 15, 16:
+			return guard(r.Range(1, 3))
 		case 9: // if/else with exactly one (never taken) returning branch, discarded
 			return ast.If{Cond: ast.Binary{Op: "<", L: ast.Name{N: "zi"}, R: ast.IntLit{V: 0}}, Then: ast.Return{X: ast.IntLit{V: 1}}, Else: g.Expr(gen.Int, 1)}
 		case 10:
